@@ -512,6 +512,40 @@ def rule_a11(repo, col):
                construct="_builtin_functor: arguments of the constructed term", function="_builtin_functor")
 
 
+def rule_a12(repo, col):
+    """a builtin's answer depends on its arguments only: no function of the builtin / unification modules has a mutable default parameter that it (or a callee it hands the
+    parameter to) writes into - such an object is created once and carries bindings from one call into the next"""
+    from .. import mutdefault
+    from ..callgraph import CallGraph
+
+    if not mutdefault.selftest():
+        raise AnalysisError("mutable-default rule does not fire on its positive example")
+    cg = CallGraph(repo)
+    n_funcs = 0
+    n_defaults = 0
+    for f in repo.all_functions():
+        if f.module.name not in ("problog.engine_builtin", "problog.engine_unify", "problog.extern", "problog.library.aggregate", "problog.library.collect"):
+            continue
+        n_funcs += 1
+        cands = mutdefault.params_with_mutable_default(f.node)
+        if not cands:
+            continue
+
+        def res(call, _f=f):
+            r = cg.resolve(_f, call)
+            return r[0].node if len(r) == 1 else None
+        mut = mutdefault.mutated_params(f.node, res)
+        for name, d in cands:
+            n_defaults += 1
+            col.decide("A12", f.module, f.node, name not in mut, "%s: mutable default of %s is never written" % (f.qualname, name),
+                       "%s declares %s=%s and writes into it (directly or through a callee): the default object is created once, so the bindings of one call are still there in the "
+                       "next - functor(foo(a),F,A) followed by functor(bar(a,b),F2,A2) then unifies F2/A2 against the stale foo/1 and fails" % (f.qualname, name, norm(d)),
+                       construct="%s: shared mutable default %s" % (f.qualname, name), function=f.qualname)
+    col.ok("A12", repo.modules["problog.engine_builtin"], repo.modules["problog.engine_builtin"].tree, "builtin and unification modules scanned for written mutable defaults: %d functions, %d "
+           "mutable defaults; positive example of the rule matched" % (n_funcs, n_defaults), construct="builtin modules: mutable-default scan", function="<module>")
+    col.floor("A12.functions_scanned", n_funcs, 150)
+
+
 def dtable_text(src, mapping):
     from .. import dtable
 
@@ -523,6 +557,7 @@ def dtable_text(src, mapping):
 def run(repo, col):
     col.rule("A10", "arg/3 selects positions 1..arity only and binds the selected argument in the term")
     col.rule("A11", "functor/3 builds a term over distinct fresh variables")
+    col.rule("A12", "no builtin keeps state in a mutable default parameter")
     col.rule("A9", "succ/2 and plus/3: one relation in every call mode")
     col.rule("A8", "length/2 answers are closed lists in the partial-list modes")
     col.rule("A1", "documented arithmetic functions/predicates exist in the dispatch table / builtin registry")
@@ -541,3 +576,4 @@ def run(repo, col):
     rule_a9(repo, col)
     rule_a10(repo, col)
     rule_a11(repo, col)
+    rule_a12(repo, col)
